@@ -1100,7 +1100,7 @@ func TestVerifC30(t *testing.T) {
 		"an exception raised while compiling a variant counts as the same exception when its text (minus the position prefix) equals the run-time text; '?: requires boolean' / 'if requires boolean' = 'conditionals require true or false'")
 	defer rep.Finish()
 
-	n := vk.N(20000, 1200000)
+	n := vk.N(60000, 1200000)
 	for i := 0; i < n; i++ {
 		r := vk.RandFor(30, i)
 		confuse := 0
